@@ -8,7 +8,7 @@ RULE = ("AnkoChan (producer -> 0..k worker goroutines -> consumer over Go channe
         "interleaving: FIFO / exactly-once per channel, the collected sequence is always a prefix of and finally equal to the expected one, no send after close, "
         "termination (liveness under weak fairness), no deadlock; a spec mutant that loses values must be caught. AnkoChanSeq gives the one-goroutine semantics of "
         "send/receive/two-value receive/close (error forms) for every operation sequence up to length 5-6. Conformance: every sequential program replayed; every "
-        "pipeline configuration (stages x capacity x items x consumer mode x element type, go-call arguments as probes) run 30-300 times on the real VM with "
+        "pipeline configuration (stages x capacity x items x consumer mode x element type, go-call arguments as probes, stage function with 3 / 5 / variadic parameters; plus pipelines of 5-70 stages beyond the model-checked sizes) run 30-300 times on the real VM with "
         "hook-injected Gosched/sleep perturbation and GOMAXPROCS in {1,2,4,16}; the collected sequence, its element type and the probe log must equal the "
         "specification's, and every run must terminate. distinct_nontrivial = pipeline configurations + non-blocking sequential programs.")
 
@@ -25,7 +25,18 @@ def pipe_configs(ctx, emitted):
                 for goargs in (False, True):
                     if goargs and (e["ns"] == 0 or mode != "range" or elem != "int64"):
                         continue
-                    out.append({"ns": e["ns"], "cap": e["cap"], "items": e["items"], "expected": e["expected"], "mode": mode, "elem": elem, "goargs": goargs})
+                    out.append({"ns": e["ns"], "cap": e["cap"], "items": e["items"], "expected": e["expected"], "mode": mode, "elem": elem, "goargs": goargs, "shape": ""})
+                if elem == "int64" and mode == "range" and e["ns"] >= 1:
+                    # the stages share one function value that takes its arguments the other ways a script function can (5 parameters, variadic)
+                    for shape in ("fn5", "fnvar"):
+                        out.append({"ns": e["ns"], "cap": e["cap"], "items": e["items"], "expected": e["expected"], "mode": mode, "elem": elem, "goargs": False, "shape": shape})
+    # long pipelines: the same specification with more stages than the model checker explores (many goroutines alive at once, all
+    # blocked on the main script until it starts consuming) -- more than 4 x GOMAXPROCS of them for every GOMAXPROCS used
+    for ns in (5, 6, 9, 70):
+        for cap_ in (0, 1):
+            for shape in ("", "fn5", "fnvar"):
+                items = [1, 2, 3]
+                out.append({"ns": ns, "cap": cap_, "items": items, "expected": [v + 10 * ns for v in items], "mode": "range", "elem": "int64", "goargs": False, "shape": shape})
     return out
 
 
